@@ -1,5 +1,8 @@
 use std::sync::atomic::{AtomicBool, AtomicU64, Ordering};
 use std::sync::{Arc, Weak};
+#[cfg(feoxdb_verif)]
+use crate::verif::thread::{self, JoinHandle};
+#[cfg(not(feoxdb_verif))]
 use std::thread::{self, JoinHandle};
 #[cfg(not(feoxdb_verif))]
 use std::time::{Duration, Instant};
@@ -124,6 +127,8 @@ impl TtlSweeper {
             last_run: self.stats.last_run.clone(),
         };
 
+        #[cfg(feoxdb_verif)]
+        thread::name_next_spawn("ttl_sweeper");
         let handle = thread::spawn(move || {
             run_sweeper_loop(store, config, shutdown, stats);
         });
